@@ -389,39 +389,31 @@ func c01Validated(c *an.Check, at0 ssa.Instruction, root0 ssa.Value) (string, st
 		}
 		why := ""
 		unknown := false
+		killed := c01KilledEdges(w, fn, at.Block())
 		for _, v := range vcalls {
-			okE, _ := an.OkEdges(v)
-			errDom := c01AnyDominates(okE, at.Block())
-			boolDom, odd := false, false
+			okE, failE := an.OkEdges(v)
+			var tE, fE []an.Edge
 			vals := an.ResultValues(v, 0)
 			for _, bv := range vals {
-				t, _ := an.BoolEdges(bv)
-				if c01AnyDominates(t, at.Block()) {
-					boolDom = true
-				}
-				if bv.Referrers() != nil {
-					for _, r := range *bv.Referrers() {
-						switch r.(type) {
-						case *ssa.If, *ssa.DebugRef, *ssa.UnOp:
-						default:
-							odd = true
-						}
-					}
-				}
+				t, f := an.BoolEdges(bv)
+				tE = append(tE, t...)
+				fE = append(fE, f...)
 			}
 			vpos := w.Pos(v.Pos())
+			ev, ewhy := c01TestHolds(okE, failE, killed, at.Block())
+			bv, bwhy := c01TestHolds(tE, fE, killed, at.Block())
 			switch {
-			case errDom && boolDom:
+			case ev == "ok" && bv == "ok":
 				return c01ValidateArgs(c, v, root)
-			case !boolDom && len(vals) == 0:
+			case len(vals) == 0:
 				why = "the boolean verdict of ValidateTx at " + vpos + " is discarded: a transaction that the validator rejects with (false, nil) is paid for"
-			case !boolDom && odd:
-				unknown = true
-				why = "the boolean verdict of ValidateTx at " + vpos + " is combined with other values before it is tested; this shape is not followed"
-			case !boolDom:
-				why = "the payment is not dominated by the `true` edge of ValidateTx's verdict at " + vpos
+			case bv == "bad":
+				why = "the payment is not protected by the `true` edge of ValidateTx's verdict at " + vpos + ": " + bwhy
+			case ev == "bad":
+				why = "the payment is not protected by the err == nil edge of ValidateTx at " + vpos + ": " + ewhy
 			default:
-				why = "the payment is not dominated by the err == nil edge of ValidateTx at " + vpos
+				unknown = true
+				why = "cannot decide whether the payment is protected by the verdict of ValidateTx at " + vpos + ": " + bwhy + " " + ewhy
 			}
 		}
 		if len(vcalls) > 0 {
@@ -451,10 +443,10 @@ func c01ValidateArgs(c *an.Check, v *ssa.Call, root ssa.Value) (string, string) 
 			if root != nil && len(l.Call.Call.Args) > 0 && l.Call.Call.Args[0] != root {
 				return "bad", "ValidateTx is given the opening parameters of a different SwapData than the one whose invoice is paid"
 			}
-		case l.Kind == "alloc" || l.Kind == "param" || l.Kind == "field":
-			return "unknown", "the parameters given to ValidateTx are not the result of GetOpeningParams() (" + l.String() + "); R5 anchors on that getter"
-		default:
+		case l.Kind == "zero" || l.Kind == "const":
 			return "bad", "the parameters given to ValidateTx do not come from GetOpeningParams(): " + strings.Join(ps.Names(), ", ")
+		default:
+			return "unknown", "the parameters given to ValidateTx are not directly the result of GetOpeningParams() (" + l.String() + "); R5 anchors on that getter"
 		}
 	}
 	if len(ps.Leaves) == 0 {
@@ -462,6 +454,9 @@ func c01ValidateArgs(c *an.Check, v *ssa.Call, root ssa.Value) (string, string) 
 	}
 	hs := w.Sources(args[1], an.FlowOpts{})
 	for _, l := range hs.Leaves {
+		if l.Kind != "field" && l.Kind != "const" && l.Kind != "zero" {
+			return "unknown", "cannot follow the transaction given to ValidateTx back to a field: " + strings.Join(hs.Names(), ", ")
+		}
 		if l.Kind != "field" || l.Name != "SwapData.OpeningTxHex" {
 			return "bad", "the transaction given to ValidateTx is not SwapData.OpeningTxHex (the raw transaction delivered by the confirmation callback) but " + strings.Join(hs.Names(), ", ")
 		}
@@ -491,13 +486,15 @@ func c01AmountSpec() an.LinSpec {
 // the function itself; helper recognises it among the facts of an in-module
 // callee, where arg(i) is the caller's canonical term of the i-th argument.
 type c01Guard struct {
-	direct func(f an.Fact) bool
-	helper func(f an.Fact, arg func(i int) string) bool
+	operand string // canonical term (substring) of the value the guard is about
+	direct  func(f an.Fact) bool
+	helper  func(f an.Fact, arg func(i int) string) bool
 }
 
 // the invoice amount equals GetClaimAmount()*1000
 var c01AmountGuard = c01Guard{
-	direct: func(f an.Fact) bool { return an.MatchLin(f, c01AmountSpec()) },
+	operand: c01DecodeAmount,
+	direct:  func(f an.Fact) bool { return an.MatchLin(f, c01AmountSpec()) },
 	helper: func(f an.Fact, arg func(i int) string) bool {
 		if f.NonNum || f.Rel != "==" || f.Const != 0 || len(f.Terms) != 2 {
 			return false
@@ -525,6 +522,7 @@ var c01AmountGuard = c01Guard{
 
 // the invoice's final CLTV delta is bounded from above (by what is C04/C05's business)
 var c01CLTVGuard = c01Guard{
+	operand: c01DecodeCLTV,
 	direct: func(f an.Fact) bool {
 		if f.NonNum || (f.Rel != ">=" && f.Rel != ">") {
 			return false
@@ -558,7 +556,7 @@ var c01CLTVGuard = c01Guard{
 // hold: direct tests, and the err == nil edges of calls to in-module helpers
 // all of whose nil returns are dominated by the same test over their
 // parameters, instantiated with the actual arguments.
-func c01GuardEdges(w *an.World, fn *ssa.Function, g c01Guard) (edges []an.Edge, how []string) {
+func c01GuardEdges(w *an.World, fn *ssa.Function, g c01Guard) (edges []an.Edge, how []string, opaque []string) {
 	for _, f := range w.Facts(fn) {
 		if g.direct(f) {
 			edges = append(edges, f.Edge)
@@ -571,7 +569,33 @@ func c01GuardEdges(w *an.World, fn *ssa.Function, g c01Guard) (edges []an.Edge, 
 			continue
 		}
 		callee := call.Call.StaticCallee()
-		if callee == nil || !w.InModule(callee) || callee.Blocks == nil || c01ErrIdx(callee) < 0 {
+		if callee == nil || !w.InModule(callee) || callee.Blocks == nil {
+			continue
+		}
+		// does the helper receive the operand, and does it test that parameter at all?
+		recv := -1
+		for i, a := range call.Call.Args {
+			if strings.Contains(w.Term(a), g.operand) {
+				recv = i
+			}
+		}
+		if recv >= 0 {
+			tests := false
+			for _, f := range w.Facts(callee) {
+				for k := range f.Terms {
+					if k == fmt.Sprintf("param#%d", recv) {
+						tests = true
+					}
+				}
+				if strings.Contains(f.L+f.R+f.Atom, fmt.Sprintf("param#%d", recv)) {
+					tests = true
+				}
+			}
+			if !tests || c01ErrIdx(callee) < 0 {
+				opaque = append(opaque, w.FuncName(callee)+" at "+w.Pos(call.Pos()))
+			}
+		}
+		if c01ErrIdx(callee) < 0 {
 			continue
 		}
 		rets := c01NilReturns(w, callee)
@@ -733,33 +757,79 @@ func c01R3(c *an.Check, pays []c01Pay) {
 		nw++
 		cons := w.FuncName(fn) + " store SwapData.OpeningTxHex"
 		pos := w.Pos(st.Pos())
-		ss := w.Sources(st.Val, an.FlowOpts{})
+		// follow the stored value to where it enters: through helper parameters into the
+		// callers' arguments and through closure variables into the enclosing function
+		ss := c01EntrySources(w, st.Val, func(pf *ssa.Function) bool { return registered[pf] }, 0)
+		var bad, unk []string
+		nCb, nMaker, nDead := 0, 0, 0
+		for _, l := range ss.Leaves {
+			switch {
+			case l.Kind == "param":
+				pv, _ := l.Val.(*ssa.Parameter)
+				if pv == nil {
+					unk = append(unk, l.String())
+					continue
+				}
+				pf := pv.Parent()
+				// callback signature func(swapId string, txHex string, err error) error: txHex is parameter #1 (+1 for a receiver)
+				want := 1
+				if pf.Signature.Recv() != nil {
+					want = 2
+				}
+				switch {
+				case registered[pf] && l.Idx == want:
+					nCb++
+				case registered[pf]:
+					bad = append(bad, "parameter "+pv.Name()+" of the confirmation callback (not its txHex parameter)")
+				default:
+					nStatic, nOther := 0, 0
+					if n := w.CG().Nodes[pf]; n != nil {
+						for _, e := range n.In {
+							if e.Site == nil || e.Caller == nil || e.Caller.Func == nil || (w.InModule(e.Caller.Func) && an.IsTestSupport(w.FnRel(e.Caller.Func))) {
+								continue
+							}
+							if e.Caller.Func.Synthetic != "" {
+								if nn := w.CG().Nodes[e.Caller.Func]; nn == nil || len(nn.In) == 0 {
+									continue
+								}
+							}
+							if e.Caller.Func.Synthetic == "" && e.Site.Common().StaticCallee() == pf {
+								nStatic++
+							} else {
+								nOther++
+							}
+						}
+					}
+					switch {
+					case nStatic+nOther == 0:
+						nDead++ // helper without production callers: nothing flows in
+					case nStatic == 0:
+						bad = append(bad, "parameter "+pv.Name()+" of "+w.FuncName(pf)+", an entry point that is not a registered confirmation callback")
+					default:
+						unk = append(unk, "parameter "+pv.Name()+" of "+w.FuncName(pf)+" (callers not fully resolvable)")
+					}
+				}
+			case l.Kind == "call" && l.Call != nil && w.Info(l.Call).Name == fxOpenTx && l.Idx == 0:
+				nMaker++
+			case l.Kind == "call" || l.Kind == "field" || l.Kind == "const" || l.Kind == "zero":
+				bad = append(bad, l.String())
+			default:
+				unk = append(unk, l.String())
+			}
+		}
 		switch {
-		case registered[fn]:
-			// callback signature func(swapId string, txHex string, err error) error: txHex is parameter #1 (+1 for a receiver)
-			want := 1
-			if fn.Signature.Recv() != nil {
-				want = 2
-			}
-			good := len(ss.Leaves) > 0
-			for _, l := range ss.Leaves {
-				if l.Kind != "param" || l.Idx != want {
-					good = false
-				}
-			}
-			c.Decide(good, "C01.R3", cons, pos, "stores the raw transaction handed to the confirmation callback",
-				"the confirmation callback stores something else than its txHex parameter: "+strings.Join(ss.Names(), ", "))
-		case w.Summary(fn).HasEffect(fxOpenTx):
-			good := len(ss.Leaves) > 0
-			for _, l := range ss.Leaves {
-				if l.Kind != "call" || l.Call == nil || w.Info(l.Call).Name != fxOpenTx || l.Idx != 0 {
-					good = false
-				}
-			}
-			c.Decide(good, "C01.R3", cons, pos, "maker side: stores the transaction its own wallet created",
-				"the maker stores something else than the wallet's transaction: "+strings.Join(ss.Names(), ", "))
+		case len(bad) > 0:
+			c.Bad("C01.R3", cons, pos, "SwapData.OpeningTxHex — the transaction that ValidateTx examines before the payment — is written outside the confirmation callback (from "+strings.Join(bad, ", ")+"): the validated transaction need not be the confirmed one")
+		case len(unk) > 0 || len(ss.Leaves) == 0:
+			c.Unknown("C01.R3", cons, pos, "cannot determine where the stored value comes from: "+strings.Join(ss.Names(), ", "))
+		case nCb+nMaker == 0 && nDead > 0:
+			c.Note("C01.R3", cons, pos, "store in a helper that no production code calls")
+		case nCb > 0 && nMaker == 0:
+			c.OK("C01.R3", cons, pos, "stores the raw transaction handed to the registered confirmation callback")
+		case nMaker > 0 && nCb == 0:
+			c.OK("C01.R3", cons, pos, "maker side: stores the transaction its own wallet created")
 		default:
-			c.Bad("C01.R3", cons, pos, "SwapData.OpeningTxHex — the transaction that ValidateTx examines before the payment — is written outside the confirmation callback (from "+strings.Join(ss.Names(), ", ")+"): the validated transaction need not be the confirmed one")
+			c.OK("C01.R3", cons, pos, "stores the confirmation callback's raw transaction or the own wallet's transaction")
 		}
 	}
 	c.AtLeast("C01.R3", "stores to SwapData.OpeningTxHex", nw, 2)
@@ -790,7 +860,22 @@ func c01R3(c *an.Check, pays []c01Pay) {
 			facts := w.FactsDominatingBlock(r.Block())
 			hasHex := an.AnyFact(facts, func(f an.Fact) bool { return an.EqIs(f, "!=", "SwapData.OpeningTxHex", `""`) })
 			noNew := an.AnyFact(facts, func(f an.Fact) bool { return an.AtomIs(f, "timelockPolicy.AllowNewClaimPayment", false) })
+			helperTest := an.AnyFact(facts, func(f an.Fact) bool {
+				cc, isCall := f.Cond.(*ssa.Call)
+				if !isCall {
+					if bo, isB := f.Cond.(*ssa.BinOp); isB {
+						if x, ok := c01Strip(bo.X).(*ssa.Call); ok {
+							cc, isCall = x, true
+						} else if y, ok := c01Strip(bo.Y).(*ssa.Call); ok {
+							cc, isCall = y, true
+						}
+					}
+				}
+				return isCall && cc.Call.StaticCallee() != nil && w.InModule(cc.Call.StaticCallee()) && !strings.Contains(w.Info(cc).Name, "getTimelockPolicy") && !strings.Contains(w.Info(cc).Name, "getOnChainServices")
+			})
 			switch {
+			case (!hasHex || !noNew) && helperTest:
+				c.Unknown("C01.R3", cons, w.Pos(r.Pos()), "the return is guarded by an in-module predicate the rule does not look into. Facts: "+an.DescribeFacts(facts))
 			case !hasHex:
 				c.Bad("C01.R3", cons, w.Pos(r.Pos()), "the action moves the swap into the paying state without the watcher and without evidence of an earlier confirmation report (`OpeningTxHex != \"\"`). Facts: "+an.DescribeFacts(facts))
 			case !noNew:
@@ -848,13 +933,20 @@ func c01R4(c *an.Check, pays []c01Pay) {
 					"a confirmation watch is registered without any upper bound on the invoice's final CLTV delta (DecodePayreq's third result)",
 					"the watch registration can be reached on a path that does not bound the invoice's final CLTV delta from above", c01CLTVGuard},
 			} {
-				edges, how := c01GuardEdges(w, fn, g.guard)
-				if len(edges) == 0 {
+				edges, how, opaque := c01GuardEdges(w, fn, g.guard)
+				cut := append([]an.Edge{}, edges...)
+				for e := range c01KilledEdges(w, fn, wc.Block()) {
+					cut = append(cut, e)
+				}
+				switch {
+				case len(edges) > 0 && an.EdgesDominate(cut, wc.Block()):
+					c.OK("C01.R4", g.cons, pos, "dominated on every branch by: "+strings.Join(how, " | "))
+				case len(opaque) > 0:
+					c.Unknown("C01.R4", g.cons, pos, "the decoded invoice value is handed to "+strings.Join(opaque, ", ")+", whose use of it the rule cannot interpret")
+				case len(edges) == 0:
 					c.Bad("C01.R4", g.cons, pos, g.none)
-				} else {
-					c.Decide(an.EdgesDominate(edges, wc.Block()), "C01.R4", g.cons, pos,
-						"dominated on every branch by: "+strings.Join(how, " | "),
-						g.some+" (tests exist only on some branches: "+strings.Join(how, " | ")+")")
+				default:
+					c.Bad("C01.R4", g.cons, pos, g.some+" (tests exist only on some branches: "+strings.Join(how, " | ")+")")
 				}
 			}
 			// (b) hash
@@ -875,25 +967,43 @@ func c01R4(c *an.Check, pays []c01Pay) {
 					stores = append(stores, st)
 				}
 			}
-			c.Decide(an.MustPassInstr(wc, stores), "C01.R4", cons, pos,
-				"ClaimPaymentHash is stored from DecodePayreq's payment hash on every path to the watch",
-				"the watch is registered on a path that has not stored the decoded invoice's payment hash in SwapData.ClaimPaymentHash: the script that is validated later is not bound to the invoice that is paid")
+			switch {
+			case an.MustPassInstr(wc, stores):
+				c.OK("C01.R4", cons, pos, "ClaimPaymentHash is stored from DecodePayreq's payment hash on every path to the watch")
+			case c01StoredInCallee(w, fn, "SwapData.ClaimPaymentHash"):
+				c.Unknown("C01.R4", cons, pos, "SwapData.ClaimPaymentHash is stored by a helper called from this function; the rule does not follow the hash through helper parameters")
+			default:
+				c.Bad("C01.R4", cons, pos, "the watch is registered on a path that has not stored the decoded invoice's payment hash in SwapData.ClaimPaymentHash: the script that is validated later is not bound to the invoice that is paid")
+			}
 			// (c) the decoded invoice is the paid field
 			cons = fname + " watch DecodePayreq argument"
 			dcs := callsNamed(w, fn, fxDecodePayreq)
 			if len(dcs) == 0 {
-				c.Bad("C01.R4", cons, pos, "no LightningClient.DecodePayreq call in the function that registers the watch")
+				if w.Summary(fn).HasEffect(fxDecodePayreq) {
+					c.Unknown("C01.R4", cons, pos, "the invoice is decoded in a helper of the function that registers the watch; not followed")
+				} else {
+					c.Bad("C01.R4", cons, pos, "no LightningClient.DecodePayreq call in the function that registers the watch")
+				}
 			}
 			for _, dc := range dcs {
 				ss := w.Sources(dc.Common().Args[0], an.FlowOpts{})
-				good := len(ss.Leaves) > 0
+				good, opaque := len(ss.Leaves) > 0, len(ss.Leaves) == 0
 				for _, l := range ss.Leaves {
 					if l.Kind != "field" || !paidChains[l.Name] {
 						good = false
 					}
+					if l.Kind != "field" && l.Kind != "const" && l.Kind != "zero" {
+						opaque = true
+					}
 				}
-				c.Decide(good, "C01.R4", cons, w.Pos(dc.Pos()), "decodes the field that is later paid",
-					fmt.Sprintf("the invoice that is checked (%v) is not the field that is paid (%v)", ss.Names(), sortedKeys(paidChains)))
+				switch {
+				case good:
+					c.OK("C01.R4", cons, w.Pos(dc.Pos()), "decodes the field that is later paid")
+				case opaque:
+					c.Unknown("C01.R4", cons, w.Pos(dc.Pos()), fmt.Sprintf("cannot follow the decoded invoice back to a field: %v", ss.Names()))
+				default:
+					c.Bad("C01.R4", cons, w.Pos(dc.Pos()), fmt.Sprintf("the invoice that is checked (%v) is not the field that is paid (%v)", ss.Names(), sortedKeys(paidChains)))
+				}
 			}
 		}
 	}
@@ -914,8 +1024,20 @@ func c01R4(c *an.Check, pays []c01Pay) {
 				good = false
 			}
 		}
-		c.Decide(good, "C01.R4", w.FuncName(fn)+" store SwapData.ClaimPaymentHash", w.Pos(st.Pos()),
-			"written from DecodePayreq's payment hash", "SwapData.ClaimPaymentHash is written from "+strings.Join(ss.Names(), ", ")+", not from the decoded invoice")
+		opaque := len(ss.Leaves) == 0
+		for _, l := range ss.Leaves {
+			if l.Kind == "param" || l.Kind == "unknown" || l.Kind == "freevar" || l.Kind == "global" {
+				opaque = true
+			}
+		}
+		switch {
+		case good:
+			c.OK("C01.R4", w.FuncName(fn)+" store SwapData.ClaimPaymentHash", w.Pos(st.Pos()), "written from DecodePayreq's payment hash")
+		case opaque:
+			c.Unknown("C01.R4", w.FuncName(fn)+" store SwapData.ClaimPaymentHash", w.Pos(st.Pos()), "cannot follow the stored hash to its origin: "+strings.Join(ss.Names(), ", "))
+		default:
+			c.Bad("C01.R4", w.FuncName(fn)+" store SwapData.ClaimPaymentHash", w.Pos(st.Pos()), "SwapData.ClaimPaymentHash is written from "+strings.Join(ss.Names(), ", ")+", not from the decoded invoice")
+		}
 	}
 	c.AtLeast("C01.R4", "stores to SwapData.ClaimPaymentHash", n, 1)
 
@@ -941,6 +1063,10 @@ func c01R4(c *an.Check, pays []c01Pay) {
 					}
 				}
 			}
+		}
+		if !guarded && len(c01CallerSites(w, fn)) > 0 && !c01IsActionExecute(w, fn) && fn.Name() != "ApplyToSwapData" {
+			c.Unknown("C01.R4", w.FuncName(fn)+" store SwapData.OpeningTxBroadcasted", w.Pos(st.Pos()), "the store sits in a helper; whether its callers test the field for nil first is not followed")
+			continue
 		}
 		c.Decide(guarded, "C01.R4", w.FuncName(fn)+" store SwapData.OpeningTxBroadcasted", w.Pos(st.Pos()),
 			"stored only while the field is still nil (write-once)",
@@ -980,7 +1106,7 @@ func c01R5(c *an.Check) {
 				continue
 			}
 			ss := w.Sources(v, an.FlowOpts{IntoCallees: true, MaxDepth: 6})
-			var bad []string
+			var bad, opaque []string
 			nf := 0
 			for _, l := range ss.Leaves {
 				switch l.Kind {
@@ -996,12 +1122,18 @@ func c01R5(c *an.Check) {
 					}
 				case "zero":
 				default:
-					bad = append(bad, l.String())
+					opaque = append(opaque, l.String())
 				}
 			}
 			sort.Strings(bad)
-			c.Decide(len(bad) == 0 && nf > 0, "C01.R5", cons, pos, "flows only from "+strings.Join(sortedKeys(allowed[field]), ", "),
-				fmt.Sprintf("%s of the script parameters the taker validates against flows from %v; allowed are only %v", field, bad, sortedKeys(allowed[field])))
+			switch {
+			case len(bad) > 0:
+				c.Bad("C01.R5", cons, pos, fmt.Sprintf("%s of the script parameters the taker validates against flows from %v; allowed are only %v", field, bad, sortedKeys(allowed[field])))
+			case len(opaque) > 0 || nf == 0:
+				c.Unknown("C01.R5", cons, pos, fmt.Sprintf("cannot follow %s back to message fields: %v", field, append(opaque, ss.Names()...)))
+			default:
+				c.OK("C01.R5", cons, pos, "flows only from "+strings.Join(sortedKeys(allowed[field]), ", "))
+			}
 		}
 		// ClaimPaymentHash
 		{
@@ -1236,6 +1368,10 @@ func c01R6(c *an.Check) {
 			}
 			if hit == nil {
 				if scriptWhy == "" {
+					if h := c01CouldHide(w, fn, []string{"ParamsToTxScript"}, params); h != "" {
+						c.Unknown("C01.R6", consS, pos, "no script comparison is found in the function itself, but the parameters are handed to "+h+", which the rule does not look into for this purpose")
+						continue
+					}
 					scriptWhy = "no dominating bytes.Equal / bytes.Compare == 0 against a script derived from ParamsToTxScript(params, csv)"
 				}
 				c.Bad("C01.R6", consS, pos, "a transaction is accepted without the output script being compared with the script of the negotiated parameters: "+scriptWhy)
@@ -1285,6 +1421,16 @@ func c01R6(c *an.Check) {
 				if !found {
 					good = false
 					detail = an.DescribeFacts(facts)
+				}
+			}
+			if !good {
+				var cv []ssa.Value
+				for _, cd := range cands {
+					cv = append(cv, cd.v)
+				}
+				if h := c01CouldHide(w, fn, []string{"ParamsToTxScript", "GetOutputScript"}, cv...); h != "" {
+					c.Unknown("C01.R6", consA, pos, "the amount test on the selected output is not found in the function itself, but the output is handed to "+h)
+					continue
 				}
 			}
 			c.Decide(good, "C01.R6", consA, pos, "the output whose script is compared was selected under `out.Value == params.Amount`",
@@ -1423,6 +1569,15 @@ func c01ValidateOpeningOutput(c *an.Check, fn *ssa.Function) {
 		return
 	}
 	output, expected, key := ssa.Value(fn.Params[1]), ssa.Value(fn.Params[2]), ssa.Value(fn.Params[3])
+	dec := func(cond bool, cons, pos, okd, badd string) {
+		if !cond {
+			if h := c01CouldHide(w, fn, nil, output, expected, key); h != "" {
+				c.Unknown("C01.R6", cons, pos, "the test is not found in the function itself, but the examined values are handed to "+h+", which the rule does not look into")
+				return
+			}
+		}
+		c.Decide(cond, "C01.R6", cons, pos, okd, badd)
+	}
 	rets := c01NilReturns(w, fn)
 	if len(rets) == 0 {
 		c.Unknown("C01.R6", fname, w.Pos(fn.Pos()), "no success return")
@@ -1447,7 +1602,7 @@ func c01ValidateOpeningOutput(c *an.Check, fn *ssa.Function) {
 		okE, _ := an.OkEdges(unb)
 		ua := unb.Call.Args
 		good := c01AnyDominates(okE, r.Block()) && len(ua) == 2 && c01Strip(ua[0]) == output && c01Slice(ua[1])[key]
-		c.Decide(good, "C01.R6", cons, pos, "dominated by UnblindOutputWithKey(output, blindingKey) == nil error",
+		dec(good, cons, pos, "dominated by UnblindOutputWithKey(output, blindingKey) == nil error",
 			"success is not dominated by a successful UnblindOutputWithKey of the examined output with the given blinding key")
 		isUnblinded := func(v ssa.Value) bool {
 			for x := range c01Slice(v) {
@@ -1474,7 +1629,7 @@ func c01ValidateOpeningOutput(c *an.Check, fn *ssa.Function) {
 				}
 			}
 		}
-		c.Decide(found, "C01.R6", cons, pos, "dominated by unblinded.Asset == policy asset", "success is not dominated by the comparison of the unblinded asset with the network's policy asset: an output in any asset of the right amount is accepted")
+		dec(found, cons, pos, "dominated by unblinded.Asset == policy asset", "success is not dominated by the comparison of the unblinded asset with the network's policy asset: an output in any asset of the right amount is accepted")
 		// commitment: set of edges {explicit asset equal, commitment equal} dominates
 		cons = fname + " success: asset commitment"
 		var commitEdges []an.Edge
@@ -1495,7 +1650,7 @@ func c01ValidateOpeningOutput(c *an.Check, fn *ssa.Function) {
 				}
 			}
 		}
-		c.Decide(len(commitEdges) > 0 && an.EdgesDominate(commitEdges, r.Block()), "C01.R6", cons, pos,
+		dec(len(commitEdges) > 0 && an.EdgesDominate(commitEdges, r.Block()), cons, pos,
 			"every path passes output.Asset == explicit policy asset or == AssetCommitment(unblinded asset, blinder)",
 			"success can be reached without the output's asset field being tied to the unblinded asset (explicit policy asset or reconstructed commitment)")
 		// value
@@ -1523,7 +1678,7 @@ func c01ValidateOpeningOutput(c *an.Check, fn *ssa.Function) {
 				}
 			}
 		}
-		c.Decide(found, "C01.R6", cons, pos, "dominated by unblinded.Value == expectedAmount",
+		dec(found, cons, pos, "dominated by unblinded.Value == expectedAmount",
 			"success is not dominated by the exact equality unblinded.Value == expectedAmount. Facts: "+an.DescribeFacts(facts))
 	}
 }
@@ -1540,6 +1695,15 @@ func c01FindVout(c *an.Check, fn *ssa.Function) {
 		return
 	}
 	outputs, script := ssa.Value(fn.Params[1]), ssa.Value(fn.Params[2])
+	dec := func(cond bool, cons, pos, okd, badd string) {
+		if !cond {
+			if h := c01CouldHide(w, fn, []string{"CreateOpeningAddress"}, outputs); h != "" {
+				c.Unknown("C01.R6", cons, pos, "the comparison is not found in the function itself, but the outputs are handed to "+h+", which the rule does not look into")
+				return
+			}
+		}
+		c.Decide(cond, "C01.R6", cons, pos, okd, badd)
+	}
 	eqs := c01EqualityFacts(w, fn)
 	for _, r := range c01NilReturns(w, fn) {
 		cons := fname + " success: script comparison"
@@ -1555,7 +1719,7 @@ func c01FindVout(c *an.Check, fn *ssa.Function) {
 				}
 			}
 		}
-		c.Decide(good, "C01.R6", cons, w.Pos(r.Pos()), "the returned index is that of an output whose script equals the script derived from the redeem script",
+		dec(good, cons, w.Pos(r.Pos()), "the returned index is that of an output whose script equals the script derived from the redeem script",
 			"FindVout returns an index that is not selected by comparing that output's script with the script derived from its redeemScript argument")
 	}
 }
@@ -1799,4 +1963,292 @@ func c01IsActionExecute(w *an.World, fn *ssa.Function) bool {
 		}
 	}
 	return false
+}
+
+// c01EntrySources is w.Sources that continues from a parameter of a helper into
+// the arguments of the helper's (static, production) call sites, but stops at
+// the parameters of functions for which stop() holds (the registered
+// callbacks) and at helpers whose callers cannot be enumerated.
+func c01EntrySources(w *an.World, v ssa.Value, stop func(*ssa.Function) bool, depth int) *an.SrcSet {
+	ss := w.Sources(v, an.FlowOpts{})
+	out := &an.SrcSet{Ops: ss.Ops}
+	for _, l := range ss.Leaves {
+		pv, isParam := l.Val.(*ssa.Parameter)
+		if l.Kind != "param" || !isParam || stop(pv.Parent()) || depth >= 3 {
+			out.Leaves = append(out.Leaves, l)
+			continue
+		}
+		pf := pv.Parent()
+		n := w.CG().Nodes[pf]
+		var args []ssa.Value
+		resolvable := n != nil
+		if n != nil {
+			for _, e := range n.In {
+				if e.Site == nil || e.Caller == nil || e.Caller.Func == nil {
+					continue
+				}
+				cf := e.Caller.Func
+				if w.InModule(cf) && an.IsTestSupport(w.FnRel(cf)) {
+					continue
+				}
+				if cf.Synthetic != "" {
+					if nn := w.CG().Nodes[cf]; nn == nil || len(nn.In) == 0 {
+						continue // wrapper that nothing calls
+					}
+				}
+				if cf.Synthetic != "" || e.Site.Common().StaticCallee() != pf || l.Idx < 0 || l.Idx >= len(e.Site.Common().Args) {
+					resolvable = false
+					continue
+				}
+				args = append(args, e.Site.Common().Args[l.Idx])
+			}
+		}
+		if !resolvable || len(args) == 0 {
+			out.Leaves = append(out.Leaves, l)
+			continue
+		}
+		for _, a := range args {
+			sub := c01EntrySources(w, a, stop, depth+1)
+			out.Leaves = append(out.Leaves, sub.Leaves...)
+		}
+	}
+	return out
+}
+
+// c01KilledEdges: CFG edges that cannot lie on a feasible path to target because
+// they enter a block with an error-typed phi Q whose incoming value on that
+// edge is certainly non-nil (a fresh error, or a value known != nil on that
+// edge) while a `Q == nil` edge dominates target. This is the
+// `if err == nil && !ok { err = errors.New(..) }; if err != nil { return }` idiom.
+func c01KilledEdges(w *an.World, fn *ssa.Function, target *ssa.BasicBlock) map[an.Edge]bool {
+	out := map[an.Edge]bool{}
+	facts := w.Facts(fn)
+	for _, b := range fn.Blocks {
+		for _, in := range b.Instrs {
+			q, ok := in.(*ssa.Phi)
+			if !ok {
+				break
+			}
+			if !an.IsErrorType(q.Type()) {
+				continue
+			}
+			dom := false
+			if q.Referrers() != nil {
+				for _, r := range *q.Referrers() {
+					bo, isB := r.(*ssa.BinOp)
+					if !isB || (bo.Op != token.EQL && bo.Op != token.NEQ) || !(an.IsNilConst(bo.X) || an.IsNilConst(bo.Y)) {
+						continue
+					}
+					for _, ce := range an.CondUses(bo) {
+						e := ce.False
+						if bo.Op == token.EQL {
+							e = ce.True
+						}
+						if e.From != target && an.EdgeDominates(e, target) {
+							dom = true
+						}
+					}
+				}
+			}
+			if !dom {
+				continue
+			}
+			for k, v := range q.Edges {
+				if k >= len(b.Preds) {
+					continue
+				}
+				pred := b.Preds[k]
+				nonNil := c01FreshError(w, v)
+				if !nonNil && !an.IsNilConst(v) {
+					for _, f := range facts {
+						if !(f.NonNum && f.Rel == "!=" && ((f.LV == v && an.IsNilConst(f.RV)) || (f.RV == v && an.IsNilConst(f.LV)))) {
+							continue
+						}
+						if (f.Edge.From == pred && f.Edge.To() == b) || an.EdgeDominates(f.Edge, pred) {
+							nonNil = true
+						}
+					}
+				}
+				if nonNil {
+					for i, sc := range pred.Succs {
+						if sc == b {
+							out[an.Edge{From: pred, Idx: i}] = true
+						}
+					}
+				}
+			}
+		}
+	}
+	return out
+}
+
+// c01TestHolds decides whether target executes only when the tested condition
+// passed. pass / fail are the edges of all Ifs on the condition. "ok": target
+// is unreachable once the passing edges' complement is accounted for, i.e. it
+// is unreachable when the pass edges and the infeasible (killed) edges are
+// removed. "bad" only when a bypass is positively established: a path reaches
+// target without the condition being tested at all, or a failing edge rejoins
+// the passing path without leaving any trace (no phi that distinguishes it, no
+// store in the failing-only region). Everything else is "unknown".
+func c01TestHolds(pass, fail []an.Edge, killed map[an.Edge]bool, target *ssa.BasicBlock) (string, string) {
+	if len(pass)+len(fail) == 0 {
+		return "bad", "the result is never tested"
+	}
+	fn := target.Parent()
+	for _, e := range pass {
+		if an.EdgeDominates(e, target) {
+			return "ok", ""
+		}
+	}
+	cut := map[an.Edge]bool{}
+	for e := range killed {
+		cut[e] = true
+	}
+	for _, e := range pass {
+		cut[e] = true
+	}
+	entry := []*ssa.BasicBlock{fn.Blocks[0]}
+	if !an.ReachBlocks(entry, cut, nil)[target] {
+		return "ok", ""
+	}
+	// untested path?
+	cut2 := map[an.Edge]bool{}
+	for e := range cut {
+		cut2[e] = true
+	}
+	for _, e := range fail {
+		cut2[e] = true
+	}
+	if an.ReachBlocks(entry, cut2, nil)[target] {
+		// a path avoids every test of the condition; it is a bypass only if it passes the producing call at all,
+		// which holds for results of a call that dominates... keep it simple: positively bad
+		return "bad", "a path reaches it without the result being tested"
+	}
+	// some failing edge reaches target
+	for _, fe := range fail {
+		if killed[fe] {
+			continue
+		}
+		if !an.ReachBlocks([]*ssa.BasicBlock{fe.To()}, cut, nil)[target] {
+			continue
+		}
+		// failing-only region: blocks that are entered only through fe
+		traceless := true
+		var region []*ssa.BasicBlock
+		for _, b := range fn.Blocks {
+			if an.EdgeDominates(fe, b) {
+				region = append(region, b)
+			}
+		}
+		inRegion := map[*ssa.BasicBlock]bool{}
+		for _, b := range region {
+			inRegion[b] = true
+		}
+		if inRegion[target] {
+			return "bad", "it lies on the failing branch itself"
+		}
+		for _, b := range region {
+			for _, in := range b.Instrs {
+				switch in.(type) {
+				case *ssa.Store, *ssa.MapUpdate, *ssa.Send, *ssa.Return, *ssa.Panic:
+					traceless = false
+				}
+			}
+		}
+		// edges leaving the region (or fe itself when the region is empty) into a merge block with a distinguishing phi
+		exits := []an.Edge{}
+		if len(region) == 0 {
+			exits = append(exits, fe)
+		}
+		for _, b := range region {
+			for i, sc := range b.Succs {
+				if !inRegion[sc] {
+					exits = append(exits, an.Edge{From: b, Idx: i})
+				}
+			}
+		}
+		for _, ex := range exits {
+			m := ex.To()
+			k := -1
+			for i, p := range m.Preds {
+				if p == ex.From {
+					k = i
+				}
+			}
+			for _, in := range m.Instrs {
+				q, ok := in.(*ssa.Phi)
+				if !ok {
+					break
+				}
+				if k < 0 || k >= len(q.Edges) {
+					traceless = false
+					continue
+				}
+				same := false
+				for i, v := range q.Edges {
+					if i != k && v == q.Edges[k] {
+						same = true
+					}
+				}
+				if !same {
+					traceless = false
+				}
+			}
+		}
+		if traceless {
+			return "bad", "the failing branch rejoins the path to it without any effect"
+		}
+		return "unknown", "a failing branch rejoins the path to it after assigning state that later tests may or may not consult"
+	}
+	return "unknown", "the tests on the result do not dominate it"
+}
+
+// c01StoredInCallee: some in-module function reached synchronously from fn
+// (not fn itself) stores to the field.
+func c01StoredInCallee(w *an.World, fn *ssa.Function, key string) bool {
+	reach := map[*ssa.Function]bool{}
+	for _, ef := range w.Summary(fn).Effects {
+		if ef.Info.Static != nil {
+			reach[ef.Info.Static] = true
+		}
+		if ef.In != nil && ef.In != fn {
+			reach[ef.In] = true
+		}
+	}
+	for _, st := range w.FieldWriters(key) {
+		if p := st.Parent(); p != fn && (reach[p] || (p.Parent() != nil && an.EnclosingTop(p) == fn)) {
+			return true
+		}
+	}
+	return false
+}
+
+// c01CouldHide: fn hands one of vals (or something computed from it) to an
+// in-module function with a body whose name does not contain any of the
+// ignore substrings — a place where a test the rule looks for could have been
+// moved to. Used to answer "cannot decide" instead of a violation when a
+// required test is not found in the function itself.
+func c01CouldHide(w *an.World, fn *ssa.Function, ignore []string, vals ...ssa.Value) string {
+	for _, cc := range an.Calls(fn) {
+		ci := w.Info(cc)
+		if ci.Static == nil || !w.InModule(ci.Static) || ci.Static.Blocks == nil {
+			continue
+		}
+		skip := false
+		for _, ig := range ignore {
+			if strings.Contains(ci.Name, ig) {
+				skip = true
+			}
+		}
+		if skip {
+			continue
+		}
+		sl := c01Slice(cc.Common().Args...)
+		for _, v := range vals {
+			if v != nil && sl[v] {
+				return ci.Name + " at " + w.Pos(cc.Pos())
+			}
+		}
+	}
+	return ""
 }
